@@ -86,6 +86,34 @@ pub fn eval_case(ops: &[Op], drv: Option<&mut Drv>, pool: &Pool) -> CaseResult {
             }
         }
     }
+    // C12: a dispatcher converts to its sendable form exactly when it has no thread-local
+    // systems, and the conversion preserves the plan
+    let shape_before = disp.verif_shape().0;
+    match disp.try_into_sendable() {
+        Ok(mut sd) => {
+            if !lay.tl.is_empty() {
+                impl_v.push(("C12".into(), format!("try_into_sendable succeeded although {} thread-local systems are registered", lay.tl.len())));
+            }
+            if sd.verif_shape() != shape_before {
+                impl_v.push(("C12".into(), format!("try_into_sendable changed the plan: {:?} -> {:?}", shape_before, sd.verif_shape())));
+            }
+            shared.take_log();
+            shared.ident.store(true, std::sync::atomic::Ordering::SeqCst);
+            let w = full_world();
+            let r = catch_unwind(AssertUnwindSafe(|| sd.dispatch_seq(&w)));
+            shared.ident.store(false, std::sync::atomic::Ordering::SeqCst);
+            let order: Vec<usize> = shared.take_log().iter().filter(|e| e.kind == 'F' && e.inst.len() == 1).map(|e| e.inst[0]).collect();
+            let want: Vec<usize> = lay.stages.iter().flatten().flatten().cloned().collect();
+            if r.is_err() || order != want {
+                impl_v.push(("C12".into(), format!("the sendable dispatcher runs {:?}, the plan was {:?}", order, want)));
+            }
+        }
+        Err(_) => {
+            if lay.tl.is_empty() {
+                impl_v.push(("C12".into(), "try_into_sendable failed although no thread-local system is registered".into()));
+            }
+        }
+    }
     CaseResult { impl_v, model_v, layout: Some(lay), built, max_threads: mt }
 }
 
